@@ -300,13 +300,16 @@ void ed_sub_extnd(ed_t r, const ed_t p, const ed_t q) {
 
 	if (p == q) {
 		ed_set_infty(r);
+		fp_zero(r->t);
 		return;
 	}
 
 	RLC_TRY {
 		ed_new(t);
 
+		/* The helpers only maintain the T coordinate when ED_ADD == EXTND. */
 		ed_neg_projc(t, q);
+		fp_neg(t->t, q->t);
 		ed_add_extnd(r, p, t);
 	}
 	RLC_CATCH_ANY {
